@@ -158,6 +158,10 @@ class SkBaseTransformStacking(SkBaseTransform):
 
         @param      params      parameters
         """
+        kwargs = {k: values.pop(k) for k in list(values) if k in self.P.Keys}
+        if kwargs:
+            # parameters given as **kwargs to the constructor
+            super().set_params(**kwargs)
         if "models" in values:
             self.models = values["models"]
             del values["models"]
